@@ -6,6 +6,10 @@ BASE_CMD = ("cd /repo && /venv/bin/python -m pytest -ra -q -p no:cacheprovider -
             "--continue-on-collection-errors --junitxml=/tmp/pyplate_baseline.junit.xml")
 TRUST = ("Trusted: CPython, numpy, the reference model in pmc/ref.py (exact rationals, self-tested against the "
          "documentation's worked examples), the enumerators' bounds as stated in the evidence file.")
+CFG = (" Also run at the quick depth in child processes under other documented configurations of default_solid_density / "
+       "default_enzyme_density ({inf, inf}: solids and enzymes without volume; {2.165, 1.35}): one per quick run, both per thorough run.")
+CFG_T = (" The thorough tier also runs the quick depth in child processes under two other configurations of default_solid_density / "
+         "default_enzyme_density ({inf, inf}, {2.165, 1.35}).")
 CHECKS = {
  'C18': dict(
     technique="exhaustive enumeration of one scenario set executed under every enumerated storage configuration in separate processes; differential oracle against the shipped configuration",
@@ -16,51 +20,51 @@ CHECKS = {
  'C19': dict(
     technique="exhaustive enumeration of magnitudes x units for the rescaling helpers, and of operations / recipe programs for instruction texts; token oracle against the true amounts from the reference model",
     text="Rescaling helpers on {1, 2.5, 9.99} x 10^e (e = -12..6) x signs x units / object kinds; instruction text of ~430 direct operations (sources with liquid / solids only / enzymes only, quantities 1e-9..1 in L, g, mol, U, whole-content transfers, dilute, fill_to, "
-         "create_solution(_from), constructor) and of the last step of every program of <= 2/3 steps: every '<number> <unit>[ of <name>]' token must be a true amount of the operation at its displayed precision.",
+         "create_solution(_from), constructor) and of the last step of every program of <= 2/3 steps: every '<number> <unit>[ of <name>]' token must be a true amount of the operation at its displayed precision; instruction histories of plate wells are append-only."+CFG,
     note="Lines without an amount token are not judged; the candidate set of true amounts is generous, so only factor-level errors are reported. " + TRUST,
     ref="DESIGN.md section 4 C19"),
  'C09': dict(
     technique="explicit-state exploration over recipe programs x stage layouts; oracle = independent per-step ledger built from prefix bakes (reference model), per-step accounting + stage arithmetic",
-    text="Every successfully baking program of <= 3/4 steps (8 143 / ~250 000) x 7-11 stage layouts (incl. an open stage at bake and refused stage calls) x every substance x destination sets x timeframes x units: "
-         "6.7 M get_substance_used answers per quick run compared with the ledger (gain of the destinations + discarded), net decrease => ValueError.",
+    text="Every successfully baking program of <= 3 steps (~11 800 per valuation; quick: one valuation) / <= 4 steps (~270 000, thorough: one valuation to depth 4, the other two to depth 3) x 8-12 stage layouts (incl. an open stage at bake, stages without steps, refused stage calls and refused premature bakes) x every substance x destination sets x timeframes x units: "
+         "~11 M get_substance_used answers per quick run compared with the ledger (gain of the destinations + discarded), net decrease => ValueError; the whole-recipe query also with the destinations as tuple, generator, iterator and dict view."+CFG_T,
     note="Noise zone (|true net change| within a few storage resolutions) is don't-care between ValueError and 0; displayed precision. " + TRUST,
     ref="DESIGN.md section 4 C09"),
  'C15': dict(
     technique="explicit-state exploration over recipe programs x stage layouts; oracle = the same ledger: totals at start/end of the timeframe, per-step gains/losses per object and per well",
-    text="Same programs and layouts as C09 x every used container and plate (per well) x timeframes x 5 units x before/after: get_amount_remaining, get_container_flows in/out, non-negativity and the identity in - out = change of amount remaining (1.9 M queries per quick run).",
+    text="Same programs and layouts as C09 x every used container and plate (per well) x timeframes x 5 units x before/after: get_amount_remaining, get_container_flows in/out, non-negativity and the identity in - out = change of amount remaining (2.5 M queries per quick run)."+CFG_T,
     note="Objects not touched in the timeframe are not queried. " + TRUST,
     ref="DESIGN.md section 4 C15"),
  'C07': dict(
     technique="exhaustive enumeration of plate shapes x slice geometries x operations, differential oracle: the same operation folded over free-standing copies of the addressed wells",
     text="6 plate-shape pairs with non-uniform wells x every slice geometry (single wells, all rectangles, stepped, lists, whole Plate) x container<->slice in 4 units and beyond capacity/content, remove, fill_to, "
-         "slice->slice over all geometry pairs, two versions of one plate under the same name, same-plate families; directly and as recipe step (~6 600 cases quick).",
+         "slice->slice over all geometry pairs, two versions of one plate under the same name, same-plate families, sub-slices of slices; directly, as the only step of a recipe, and as the second step after a step that changed the addressed plates (~33 000 cases quick)."+CFG,
     note="Known finding (recipe fill_to on a slice fills the whole plate) is identified by an explicit model of that behaviour. Container-level correctness of the folded operation is C01/C02/C03/C11/C17's job. " + TRUST,
     ref="DESIGN.md section 4 C07"),
  'C08': dict(
     technique="explicit-state exploration over recipe programs (BFS, state = bake of the prefix); oracle in inductive form bake(p.s) == eager_apply(bake(p), s)",
-    text="Every program of <= 3 (quick) / 4 (thorough) steps over a 30-action vocabulary (~10 000 / ~300 000 programs) is baked in a fresh Recipe and compared step-wise with the eager interpreter: outcome class, key set, every object; plus 'no effect before bake'.",
+    text="Every program of <= 3 (quick) / 4 (thorough) steps over a 30-action vocabulary (~10 000 / ~300 000 programs) is baked in a fresh Recipe and compared step-wise with the eager interpreter: outcome class, key set, every object; plus 'no effect before bake', the same program with a refused premature bake() after every step that leaves a declared object unused, and steps refused when added although the eager operation succeeds."+CFG,
     note="Known finding (recipe fill_to on a slice) identified by an explicit model of its behaviour; extensions of failing prefixes are pruned. " + TRUST,
     ref="DESIGN.md section 4 C08"),
  'C05': dict(
     technique="exhaustive enumeration of the solution-specification grammar; feasibility classified by an exact rational linear solve; results judged by definition against the reference model",
     text="~17 000 specifications per valuation (6 solute lists x 5 solvents incl. 3 containers x 4 feasibility levels x which-two-of-three x every concentration spelling / quantity / total unit, "
-         "+ broadcast, inconsistent and wrong-kind families): key set, positivity, every stated concentration / quantity / total, uniform solvent aliquot and conservation, accept/refuse decision.",
+         "+ broadcast, inconsistent and wrong-kind families): key set, positivity, every stated concentration / quantity / total, uniform solvent aliquot and conservation, accept/refuse decision."+CFG,
     note="Values come from three valuations and four feasibility levels; don't-care near boundaries, for singular specs, and where the solvent container already holds the solute. " + TRUST,
     ref="DESIGN.md section 4 C05"),
  'C11': dict(
     technique="exhaustive enumeration of dilute/fill_to specifications derived from the current state by the reference model; results judged by definition",
     text="7 mixture classes x solute x solvent (present/other) x 17 concentration spellings x 6 target factors x 4 capacity classes for dilute; 10 unit spellings x 4 factors x capacities x 3 solvent kinds for fill_to: "
-         "only the solvent increases, target met, capacity respected, refusal above the current concentration / below the current quantity.",
-    note="Factor 1 is don't-care. " + TRUST,
+         "only the solvent increases, target met, capacity respected, refusal above the current concentration / below the current quantity; every request with an unlimited or just-too-small vessel also as a recipe step (same outcome and container as the direct call)."+CFG,
+    note="Factor 1 and a vessel whose capacity equals the result volume exactly are don't-care. " + TRUST,
     ref="DESIGN.md section 4 C11"),
  'C12': dict(
     technique="exhaustive enumeration of create_solution_from specifications; feasibility by an exact 2x2 rational solve; results judged by definition incl. uniform aliquots and conservation",
-    text="5 stocks x 4 solvent forms x 16 concentration spellings x 4 ratios x 7 quantity units x 3 sizes (12 160 specs per valuation).",
+    text="5 stocks x 4 solvent forms x 16 concentration spellings x 4 ratios x 7 quantity units x 4 sizes x input vessels {unlimited, 2 % head-room} (33 280 specs per valuation); name and capacity of the residual vessels, sanity of every returned vessel."+CFG,
     note="Ratio 1 and whole-stock requests are don't-care. " + TRUST,
     ref="DESIGN.md section 4 C12"),
  'C17': dict(
     technique="exhaustive enumeration of mixtures x selectors x object forms, direct and as recipe step, against the reference model and a ledger of removed amounts",
-    text="All 31 non-empty mixtures of 5 substances x 9 selectors x {container, whole plate, 12 slice geometries} x {direct, recipe}: exact contents, volume, frame, and the link to get_substance_used / get_container_flows.",
+    text="All 31 non-empty mixtures of 5 substances x 9 selectors, plus 66 mixtures that hold a substance next to a twin (another substance carrying its name) x 12 selectors, x {container, whole plate, 12 slice geometries, 3 sub-slices} x {direct, recipe}: exact contents (keyed by what a substance is, not by Substance.__eq__), volume, frame, and the link to get_substance_used / get_container_flows."+CFG,
     note=TRUST,
     ref="DESIGN.md section 4 C17"),
  'C06': dict(
@@ -85,31 +89,31 @@ CHECKS = {
     technique="explicit-state exploration of the implementation: BFS over operation histories with canonical-state hashing; invariant (conservation + frame) on every transition",
     text="Every transfer reachable by the bounded exhaustive enumeration (all ordered pairs of source/destination forms incl. same-plate "
          "regions x 4 units from 3 base states, every unit spelling x size x pairing form, and all histories of <= 3/4 operations over a "
-         "48-action alphabet) is executed on the real API; per-substance totals over the whole world and bit-identity of untouched wells are checked on each.",
+         "48-action alphabet, plus a world of vessels holding substances that share a name, 44 actions to depth 2/3) is executed on the real API; totals per substance identity (name, kind, parameters; never through Substance.__eq__) over the whole world and bit-identity of untouched wells are checked on each."+CFG,
     note="Bounded depth and data tables (3 valuations); tolerance 1e-9 storage units per written well. " + TRUST,
     ref="DESIGN.md section 4 C01"),
  'C02': dict(
     technique="explicit-state exploration of the implementation in lock-step with an exact-rational reference model (per-pair aliquot), plus exhaustive chains over a ring alphabet",
     text="Same enumerated space as C01; every accepted transfer is compared pair by pair with the reference aliquot (one common fraction, size q in the unit of q); "
-         "all chains of <= 5/7 transfers over an 8-action ring are executed with per-step aliquot check, cumulative conservation and a lock-step reference.",
+         "all chains of <= 5/7 transfers over an 8-action ring are executed with per-step aliquot check, cumulative conservation and a lock-step reference; an accepted transfer of more than the source holds in the unit of q is a violation."+CFG,
     note="Quantities are multiples of the documented internal resolution; tolerance accounts for the storage resolution (1e-10 per stored amount). " + TRUST,
     ref="DESIGN.md section 4 C02"),
  'C03': dict(
     technique="explicit-state exploration with a state-sanity invariant, plus exhaustive boundary enumeration (below/at/above every feasibility constraint) classified by the reference model",
     text="Sanity (no negative amount/volume, volume <= capacity) of every object returned along every history of the full operation menu incl. infeasible requests; "
-         "~3 500 boundary cases (all exact-capacity fills 1..200 mL / 0.1..5.0 mL in three spellings, over-draw/negative/zero/empty in L, g, mol, U, destination capacity, fill_to, dilute, create_solution(_from)), directly and as recipe steps.",
+         "~3 500 boundary cases (all exact-capacity fills 1..200 mL / 0.1..5.0 mL in three spellings, over-draw/negative/zero/empty in L, g, mol, U, destination capacity, fill_to, dilute, create_solution(_from)), directly and as recipe steps; the same sanity judgement on every object handed out by the bake of every recipe program of <= 2/3 steps."+CFG,
     note="'at the boundary' is must-accept only for decimal-exact boundaries; margins 0.1 %-5 %. " + TRUST,
     ref="DESIGN.md section 4 C03"),
  'C04': dict(
     technique="explicit-state exploration with structural fingerprints of every argument and every earlier result before/after each call (returned or raised)",
     text="Along every history of the full menu incl. failing calls, every argument and every object produced earlier is re-fingerprinted after each call; "
-         "all (18 slice geometries x 7 x 7 operation pairs) with one slice object held across both calls; every action as recipe (declare, add, bake, re-use results).",
+         "all (18 slice geometries x 7 x 7 operation pairs) with one slice object held across both calls; every action as recipe (declare, add, bake, re-use results); every list handed to a call (solutes, concentrations, quantities, initial contents) compared with its value before."+CFG,
     note="Fingerprints cover name, exact contents, volume, capacity, instructions, every well, labels, slice bindings, substance attributes. " + TRUST,
     ref="DESIGN.md section 4 C04"),
  'C10': dict(
     technique="explicit-state exploration with an observer monitor: every observer of every changed object compared with the exact-rational definition on every reached state",
     text="On every state of the full-menu BFS and the geometry/unit sweeps: stored volume vs contents, get_volume (7 units), get_concentration (6 substances x 26 unit spellings), "
-         "plate/slice get_volumes, get_moles, get_volume, get_substances.",
+         "plate/slice get_volumes, get_moles, get_volume, get_substances."+CFG_T,
     note="Volumes below ten internal resolutions are not judged per litre. " + TRUST,
     ref="DESIGN.md section 4 C10"),
  'C16': dict(
@@ -118,7 +122,7 @@ CHECKS = {
     text="All reachable states and edges of the bounded TLA+ lifecycle model (quick: 2 786 states / 78 138 edges; thorough: "
          "two configurations, 40 085 states / 1.5 M edges) are enumerated by TLC and every edge is executed on the real "
          "pyplate.Recipe: outcome class of each call, step count, declared names, stage ranges, lock flag, and the full "
-         "implementation digest (after bake including every tracking answer) after each refused call.",
+         "implementation digest (results, step records, after bake every tracking answer) after each refused call, a refused bake and nine calls with rejected arguments included.",
     note="Bounded: <= 3 (quick) / 4 (thorough) accepted steps, 2-3 outside objects, 2-3 recipe-created objects, 1-2 stage names; "
          "the model is written from the property text; TLC 1.8.0 is trusted to enumerate it. " + TRUST,
     ref="DESIGN.md section 4 C16, Appendix A"),
